@@ -45,7 +45,7 @@ def run_case(case: dict) -> dict:
     c = g["c"]
     kind = KIND[c["tag"]]
     ev = {"tid": case["tid"], "c": c, "line": g["line"], "via": case["via"], "place": case["place"],
-          "snippet": case["snippet"], "poison": case["poison"], "eol": case["eol"], "crash": "", "err": False}
+          "snippet": case["snippet"], "poison": case["poison"], "eol": case["eol"], "crash": "", "err": False, "bom": bool(case.get("bom"))}
     filler = "filler line that says nothing at all, only here to fill the first four kilobytes\n"
     lines = []
     if case.get("marker_at"):
@@ -70,6 +70,8 @@ def run_case(case: dict) -> dict:
     if case["poison"]:
         lines.insert(0, "SPDX-License-Identifier: MIT AND AND\n")
     text = "".join(lines).replace("\n", case["eol"])
+    if case.get("bom"):
+        text = "\ufeff" + text          # a byte order mark belongs to no line
     if case["via"] == "api":
         obs, err = observe_api(text.replace("\r\n", "\n").replace("\r", "\n"), kind)
         ev["err"] = err
@@ -124,7 +126,8 @@ def run(ctx: core.Ctx) -> int:
             j = i // 5
             place = "beyond" if j % 2 else "head"
             cases.append({"tid": len(cases) + 1, "g": g, "via": "lint", "place": place, "snippet": bool(j % 4 >= 2),
-                          "poison": j % 7 == 0, "eol": ["\n", "\r\n", "\r"][j % 3], "wide": j % 3 == 1})
+                          "poison": j % 7 == 0, "eol": ["\n", "\r\n", "\r"][j % 3], "wide": j % 3 == 1,
+                          "bom": j % 4 == 2 and place == "head" and j % 7 != 0})
     # the snippet marker at byte offsets around multiples of the 4 KiB window (LF files; offsets are byte-exact there)
     basic = [g for g in gens if g["c"]["tag"] in ("lic", "cop") and not g["c"]["frame"]][:: max(1, len(gens) // 40)]
     for gi, g in enumerate(basic):
